@@ -80,13 +80,13 @@ Definition clause_C08 (c : case) : nat :=
 
 Definition class_C08 (c : case) : nat :=
   match c with
-  | CFb _ L _ _ => if cls_order_not_first L then 1%nat else if cls_order_zero L then 2%nat else 0%nat
+  | CFb _ L _ _ => if cls_order_zero L then 2%nat else 0%nat
   | CFrag sf entries _ _ _ => class_entries sf entries
   | CWhole base tr layers laa _ _ _ _ =>
       match class_layers laa layers with
       | 0%nat => match class_C07 base tr with
                  | 0%nat => if cls_ambiguous base layers then 10%nat else 0%nat
-                 | k => (6 + k)%nat     (* 7, 8, 9: C07 classes on the base graph *)
+                 | k => (6 + k)%nat     (* 9: the open C07 class (pct marker) on the base graph; 7, 8 repaired *)
                  end
       | k => k
       end
